@@ -603,7 +603,7 @@ func init() {
 	})
 	register(&SimProp{
 		ID: "C05",
-		Profiles: []*Profile{accessProfile("c05-call", map[string]int{"call": 22, "new": 5, "httppost": 7, "auth": 4, "subscribe": 12, "mutate": 8},
+		Profiles: []*Profile{accessProfile("c05-call", map[string]int{"trigburst": 8, "call": 26, "new": 5, "httppost": 7, "auth": 4, "subscribe": 12, "mutate": 8},
 			map[string]int{"grant": 6, "calllist": 12, "callonly": 3, "deny": 2, "denied": 2, "err": 1, "timeout": 1})},
 		Config:   accessConfig,
 		Monitors: func() []Monitor { return []Monitor{NewMonC05()} },
